@@ -112,7 +112,8 @@ def set_block(op, d, accel):
         cfgs = api.npu_find_block_configs(op, ACCEL[accel])
         if not cfgs:
             raise ValueError("no block config offered")
-        idx = d.get("block_pick", 0) % len(cfgs)
+        # spread the (small) pick index over the whole offered list: first, ~1/3, ~2/3, last
+        idx = (d.get("block_pick", 0) % 4) * (len(cfgs) - 1) // 3
         op.block_config = cfgs[idx]
 
 
